@@ -704,7 +704,7 @@ func c16strace(c *Ctx, bin, base string, mkspec func(cache, mode string, ops [][
 		sp := mkspec(cache, "run", c16singleOps)
 		sp.LockThread = true
 		c.Eval(1)
-		r := c16exec(c, bin, sp, []string{"GOMAXPROCS=1"}, []string{"strace", "-f", "-o", "/dev/null", "-e", "trace=none", "-e", fmt.Sprintf("inject=%s:signal=KILL:when=%d", calls, n)}, base)
+		r := c16exec(c, bin, sp, []string{"GOMAXPROCS=1"}, []string{"strace", "-f", "-o", "/dev/null", "-e", "trace=" + calls, "-e", fmt.Sprintf("inject=%s:signal=KILL:when=%d", calls, n)}, base)
 		rp := map[string]any{"strace_when": n}
 		key := fmt.Sprintf("C16|strace@%d", n)
 		what := fmt.Sprintf("killed at file-system syscall %d", n)
